@@ -21,6 +21,10 @@ def run(tier, seed):
     run.extra["inputs_with_references"] = sum(1 for t in traces for x in [t[0]["vec"]] + t[0]["mods"] if x["refs"])
     run.extra["cited_input_features"] = sum(1 for t in traces for x in [t[0]["vec"]] + t[0]["mods"] for f in x["feats"] if f["cites"])
     run.extra["cited_product_features"] = sum(1 for t in traces for f in t[0]["out"]["feats"] if f["cites"])
+    # generic history fuzzer: live objects used again and again (wrap, query, rotate by 0, edit in place, assemble)
+    from .. import scenario
+    sc = scenario.run(rng, 20 if q else 200)
+    run.validate("scenario-assemblies", "Trace_Assembly", sc["assembly"], None, sigfn=ac.asm_sig, describe=ac.asm_describe)
     return run.finish("TLC: de-/re-referencing steps of the assembly machine restore every input (with faults); I->S: assemblies whose inputs "
                       "carry reference lists of length 0-3 (shared or unique), features citing none / one / two references inside and "
                       "outside the retained fragments; TLC maps the cited features through the fragment map and requires each product "
